@@ -1246,7 +1246,7 @@ fn nests(outer: &[&str], inner: &[&str], depth: usize, compressed: bool) -> Vec<
 fn main() {
     let ck = Check::from_args("C19");
     let quick = ck.quick();
-    ck.rule("nests outer{inner{..{x:y}}} of depth 2..4: outer list from a 20-element alphabet (8 quick), each inner list from a 44-element alphabet (all positions of `&`, suffixes, pseudo arguments, lists, leading combinators, misplaced `&`); declaration masks before/after the nested rule at every level; distinct = distinct (selector chain, declaration mask, style); outcome = emitted (selector list, declarations) blocks");
+    ck.rule("nests outer{inner{..{x:y}}} of depth 2..4: outer list from a 20-element alphabet, each inner list from a 44-element alphabet (all positions of `&`, suffixes, pseudo arguments, lists, leading combinators, misplaced `&`); depth 2: all x 2 styles; depth 3: 20 x 44^2 (quick 20 x 32^2); depth 4: 20 x 44^3 (quick 8 x 12^3); declarations: 5 outer x 8 inner, depth 2..4 (quick 2..3), every before/after mask at every level; distinct = distinct (selector chain, declaration mask, style); outcome = emitted (selector list, declarations) blocks");
     ck.assume("the reference resolver implements dart-sass' resolveParentSelectors/flattenVertically and its placeholder visibility rules for the enumerated grammar; expanded/compressed block framing of rsass is parsed loosely (not part of the property)");
 
     let outer4: &[&str] = if quick { &OUTER[..OUTER_QUICK] } else { OUTER };
